@@ -14,3 +14,17 @@ Theorem C14_get_other_after_set : forall s k v, heap_ok s -> vals_ok s ->
   forall k', streq k' k = false -> getitem (set_setitem s SRoot k v) SRoot k' = getitem s SRoot k'.
 Proof. exact EditLaws.get_other_after_set. Qed.
 Print Assumptions C14_get_other_after_set.
+
+(* FULL coherence clause "the rebuilt text shows exactly the bindings the mapping reports": REFUTED on the faithful
+   model (finding F-17): on { a.b = 1; c = 2; } `del m["a"]` succeeds, the mapping no longer has `a`, and the printed
+   document is unchanged — text and mapping disagree *)
+From E Require Import MapRun.
+Definition C14_coherent_full : Prop :=
+  forall d st0 k, parse_doc d = Ok st0 -> snd (set_delitem st0 SRoot k) = Ok tt ->
+  tree_eqb 100 (view (fst (set_delitem st0 SRoot k))) (view st0) = false.
+Theorem C14_coherent_full_refuted : ~ C14_coherent_full.
+Proof.
+  intros H. destruct (parse_doc d17) as [st0|e] eqn:E; [|vm_compute in E; discriminate].
+  specialize (H d17 st0 (s "a") E). vm_compute in E. injection E as <-. vm_compute in H. specialize (H eq_refl). discriminate.
+Qed.
+Print Assumptions C14_coherent_full_refuted.
